@@ -375,6 +375,8 @@ package bitcoin_reader
 //@   ensures [C06.waiting-announcer-recorded] !result0 && old(has(tm.txs, txid) && tm.txs[txid].Received == nil) ==> inIDs(tm.txs[txid].NodeIDs, nodeID)
 //@   ensures [C06.single-outstanding] result0 && old(has(tm.txs, txid)) ==> since(old(tm.txs[txid].LastRequested)) >= aload(m.requestTimeout, time.Duration)
 //@   ensures [C06.outstanding-queues] old(has(tm.txs, txid) && tm.txs[txid].Received == nil) && since(old(tm.txs[txid].LastRequested)) < aload(m.requestTimeout, time.Duration) ==> !result0 && inIDs(tm.txs[txid].NodeIDs, nodeID)
+//@   ensures [C06.retry-after-timeout] old(has(tm.txs, txid) && tm.txs[txid].Received == nil) && since(old(tm.txs[txid].LastRequested)) >= aload(m.requestTimeout, time.Duration) ==> result0
+//@   ensures [C06.stamp-only-on-request] !result0 && old(has(tm.txs, txid)) ==> tm.txs[txid].LastRequested == old(tm.txs[txid].LastRequested)
 //@   ensures [C06.received-stable] old(has(tm.txs, txid)) ==> has(tm.txs, txid) && tm.txs[txid] == old(tm.txs[txid]) && tm.txs[txid].Received == old(tm.txs[txid].Received)
 //@   ensures [C06.no-error] result1 == nil
 //@   ensures [C06.invariant] tm != nil && tm.txs != nil && entryOK(tm, txid)
@@ -487,11 +489,14 @@ package bitcoin_reader
 
 // Merkle tree of the dependency (github.com/tokenized/pkg/merkle_proof). AddMerkleProof/NewMerkleProof are analysed
 // from their source (inlined); AddHash and FinalizeMerkleProofs (SHA-256 tree arithmetic) are trusted: AddHash counts
-// one more leaf and may set the Index of held proofs; FinalizeMerkleProofs returns the held proofs and publishes the
+// one more leaf and gives the first held proof of that txid that has no index yet the index of the new leaf (a proof
+// registered after its leaf is never indexed, and FinalizeMerkleProofs builds no path for it); FinalizeMerkleProofs returns the held proofs and publishes the
 // computed root and leaf count in ghost cells so that later obligations can refer to them.
 //@ trusted func (*github.com/tokenized/pkg/merkle_proof.MerkleTree).AddHash
 //@   requires t != nil
 //@   ensures t.count == old(t.count) + 1
+//@   ensures forall(k, 0, len(t.merkleProofs), old(t.merkleProofs[k].Index) != -1 ==> t.merkleProofs[k].Index == old(t.merkleProofs[k].Index))
+//@   ensures forall(k, 0, len(t.merkleProofs), old(t.merkleProofs[k].Index) == -1 && t.merkleProofs[k].TxID != nil && *t.merkleProofs[k].TxID == hash && forall(j, 0, k, old(t.merkleProofs[j].Index) != -1) ==> t.merkleProofs[k].Index == old(t.count))
 //@   modifies t.layers, t.count, allof(merkle_proof.MerkleProof.Index)
 //@ trusted func (github.com/tokenized/pkg/merkle_proof.MerkleTree).FinalizeMerkleProofs
 //@   ensures result1 == t.merkleProofs && ghostv("merkleRoot", 0) == result0 && ghostv("merkleCount", 0) == t.count
@@ -507,6 +512,7 @@ package bitcoin_reader
 //@   params p, ctx, txid, blockHeight, merkleProof
 //@   requires [C04.confirm-proof-for-txid] merkleProof != nil && merkleProof.TxID != nil && *merkleProof.TxID == txid
 //@   requires [C04.confirm-proof-bound-to-header] merkleProof.BlockHeader != nil && merkleProof.BlockHash != nil && *merkleProof.BlockHash == hashOf(merkleProof.BlockHeader) && merkleProof.BlockHeader.MerkleRoot == ghostv("merkleRoot", 0)
+//@   requires [C04.confirm-proof-indexed] merkleProof.Index >= 0 && merkleProof.Index < ghostv("merkleCount", 0)
 //@   ensures ghostv("confirmed", 0) == old(ghostv("confirmed", 0)) + 1
 //@   modifies ghost("confirmed")
 //@ iface github.com/tokenized/bitcoin_reader.BlockTxManager.AppendBlockTxIDs
@@ -529,6 +535,7 @@ package bitcoin_reader
 //@     invariant i >= 0 && i == recvd(txChannel) - atentry(recvd(txChannel)) && merkleTree != nil && merkleTree.count == i && blockEvents() == atentry(blockEvents())
 //@     invariant len(blockTxIDs) == ghostv("relevant", 0) - atentry(ghostv("relevant", 0)) && len(merkleTree.merkleProofs) == len(blockTxIDs)
 //@     invariant forall(k, 0, len(blockTxIDs), merkleTree.merkleProofs[k] != nil && merkleTree.merkleProofs[k].TxID != nil && *merkleTree.merkleProofs[k].TxID == blockTxIDs[k])
+//@     invariant forall(k, 0, len(blockTxIDs), 0 <= merkleTree.merkleProofs[k].Index && merkleTree.merkleProofs[k].Index < i)
 //@   loop 2
 //@     modifies chanof(txChannel)
 //@     invariant blockEvents() == atentry(blockEvents())
